@@ -1,7 +1,7 @@
 (* Properties_C12 — one active operation per session and an honest output-length protocol.
    Model: coq/Crypto/OpModel.v (machine arithmetic of the C++).  Statements only. *)
 From Coq Require Import List NArith Bool.
-From SoftHSM Require Import Gen_Const OpModel OpFacts Gen_Ops OpIsCode.
+From SoftHSM Require Import Gen_Const OpModel OpFacts Gen_Ops OpIsCode OpHonest.
 Import ListNotations.
 Local Open Scope N_scope.
 
@@ -134,3 +134,78 @@ Theorem C12_enc_update_announced_length_suffices : forall (o : symop) (len have 
   fst (SymEncryptUpdate.app (enc_update_env o len (Some (N.max have n)))) <> CKR_BUFFER_TOO_SMALL.
 Proof. exact enc_update_announced_length_suffices. Qed.
 Print Assumptions C12_enc_update_announced_length_suffices.
+
+Theorem C12_dec_single_is_code : forall (o : symop) (len : N) (buf : obuf),
+  so_enc o = false ->
+  let r := sym_single o len buf in
+  normr (SymDecrypt.app (dec_single_env o len buf)) = (r_rv r, eff_of r).
+Proof. exact dec_single_is_code. Qed.
+Print Assumptions C12_dec_single_is_code.
+
+(* ---- the output-length protocol proved about the regenerated functions themselves, for every behaviour of the crypto backend ---- *)
+
+Theorem C12_SymEncryptUpdate_honest : forall (e : SymEncryptUpdate.env),
+  honest (SymEncryptUpdate.deref_pulEncryptedDataLen e) (SymEncryptUpdate.pEncryptedData e) (SymEncryptUpdate.app e) /\
+  update_stays (SymEncryptUpdate.app e).
+Proof. exact OpHonest.SymEncryptUpdate_honest. Qed.
+Print Assumptions C12_SymEncryptUpdate_honest.
+
+Theorem C12_SymDecryptUpdate_honest : forall (e : SymDecryptUpdate.env),
+  honest (SymDecryptUpdate.deref_pDataLen e) (SymDecryptUpdate.pData e) (SymDecryptUpdate.app e) /\
+  update_stays (SymDecryptUpdate.app e).
+Proof. exact OpHonest.SymDecryptUpdate_honest. Qed.
+Print Assumptions C12_SymDecryptUpdate_honest.
+
+Theorem C12_SymEncryptFinal_honest : forall (e : SymEncryptFinal.env),
+  honest (SymEncryptFinal.deref_pulEncryptedDataLen e) (SymEncryptFinal.pEncryptedData e) (SymEncryptFinal.app e) /\
+  final_ends (SymEncryptFinal.pEncryptedData e) (SymEncryptFinal.app e).
+Proof. exact OpHonest.SymEncryptFinal_honest. Qed.
+Print Assumptions C12_SymEncryptFinal_honest.
+
+Theorem C12_SymDecryptFinal_honest : forall (e : SymDecryptFinal.env),
+  honest (SymDecryptFinal.deref_pulDecryptedDataLen e) (SymDecryptFinal.pDecryptedData e) (SymDecryptFinal.app e) /\
+  final_ends (SymDecryptFinal.pDecryptedData e) (SymDecryptFinal.app e).
+Proof. exact OpHonest.SymDecryptFinal_honest. Qed.
+Print Assumptions C12_SymDecryptFinal_honest.
+
+Theorem C12_SymEncrypt_honest : forall (e : SymEncrypt.env),
+  honest (SymEncrypt.deref_pulEncryptedDataLen e) (SymEncrypt.pEncryptedData e) (SymEncrypt.app e) /\
+  final_ends (SymEncrypt.pEncryptedData e) (SymEncrypt.app e).
+Proof. exact OpHonest.SymEncrypt_honest. Qed.
+Print Assumptions C12_SymEncrypt_honest.
+
+Theorem C12_SymDecrypt_honest : forall (e : SymDecrypt.env),
+  honest (SymDecrypt.deref_pulDataLen e) (SymDecrypt.pData e) (SymDecrypt.app e) /\
+  final_ends (SymDecrypt.pData e) (SymDecrypt.app e).
+Proof. exact OpHonest.SymDecrypt_honest. Qed.
+Print Assumptions C12_SymDecrypt_honest.
+
+Theorem C12_AsymEncrypt_honest : forall (e : AsymEncrypt.env),
+  honest (AsymEncrypt.deref_pulEncryptedDataLen e) (AsymEncrypt.pEncryptedData e) (AsymEncrypt.app e) /\
+  final_ends (AsymEncrypt.pEncryptedData e) (AsymEncrypt.app e).
+Proof. exact OpHonest.AsymEncrypt_honest. Qed.
+Print Assumptions C12_AsymEncrypt_honest.
+
+Theorem C12_AsymDecrypt_honest : forall (e : AsymDecrypt.env),
+  honest (AsymDecrypt.deref_pulDataLen e) (AsymDecrypt.pData e) (AsymDecrypt.app e) /\
+  final_ends (AsymDecrypt.pData e) (AsymDecrypt.app e).
+Proof. exact OpHonest.AsymDecrypt_honest. Qed.
+Print Assumptions C12_AsymDecrypt_honest.
+
+Theorem C12_MacSignFinal_honest : forall (e : MacSignFinal.env),
+  honest (MacSignFinal.deref_pulSignatureLen e) (MacSignFinal.pSignature e) (MacSignFinal.app e) /\
+  final_ends (MacSignFinal.pSignature e) (MacSignFinal.app e).
+Proof. exact OpHonest.MacSignFinal_honest. Qed.
+Print Assumptions C12_MacSignFinal_honest.
+
+Theorem C12_MacSign_honest : forall (e : MacSign.env),
+  honest (MacSign.deref_pulSignatureLen e) (MacSign.pSignature e) (MacSign.app e) /\
+  final_ends (MacSign.pSignature e) (MacSign.app e).
+Proof. exact OpHonest.MacSign_honest. Qed.
+Print Assumptions C12_MacSign_honest.
+
+Theorem C12_AsymSignFinal_honest : forall (e : AsymSignFinal.env),
+  honest (AsymSignFinal.deref_pulSignatureLen e) (AsymSignFinal.pSignature e) (AsymSignFinal.app e) /\
+  final_ends (AsymSignFinal.pSignature e) (AsymSignFinal.app e).
+Proof. exact OpHonest.AsymSignFinal_honest. Qed.
+Print Assumptions C12_AsymSignFinal_honest.
